@@ -114,11 +114,54 @@ def datum_of(d):
     return cfdm.Datum(parameters={"earth_radius": 6371000.0 + d})
 
 
+LISTS = {0: [0, 2], 1: [1, 3], 2: [1, 2, 3]}
+COUNTS = {0: [2, 1, 3], 1: [1, 3, 2], 2: [2, 1], 3: [1, 2]}
+
+
+def compressed_data(sk):
+    """the data of a field stored compressed (gathered / contiguous ragged / indexed ragged)"""
+    c = sk["cmp"]
+    sizes = tuple(sk["sizes"])
+    if c["kind"] == "gath":
+        lst = LISTS[c["t"]]
+        p, n = c["p"], c["n"]
+        cshape = sizes[:p] + (len(lst),) + sizes[p + n:]
+        comp = sk["id"] * 1000.0 + np.arange(int(np.prod(cshape)), dtype=float).reshape(cshape)
+        L = cfdm.List(data=cfdm.Data(np.array(lst)))
+        arr = cfdm.GatheredArray(compressed_array=cfdm.Data(comp), shape=sizes,
+                                 compressed_dimensions={p: tuple(range(p, p + n))}, list_variable=L)
+    else:
+        counts = COUNTS[c["t"]]
+        comp = sk["id"] * 1000.0 + np.arange(sum(counts), dtype=float)
+        if c["kind"] == "cont":
+            C = cfdm.Count(data=cfdm.Data(np.array(counts)))
+            arr = cfdm.RaggedContiguousArray(compressed_array=cfdm.Data(comp), shape=sizes, count_variable=C)
+        else:
+            I = cfdm.Index(data=cfdm.Data(np.repeat(np.arange(len(counts)), counts)))
+            arr = cfdm.RaggedIndexedArray(compressed_array=cfdm.Data(comp), shape=sizes, index_variable=I)
+    return cfdm.Data(arr)
+
+
 def build(sk):
     if sk.get("ex") is not None:
         # one of cfdm's own example fields, tagged so that it can be found again
         f = cfdm.example_field(int(sk["ex"]))
         f.set_property("fid", int(sk["id"]))
+        if sk.get("exvar"):
+            # a variant of a geometry example field: same node counts / part node counts, other node
+            # coordinates and / or other instance-level coordinates
+            f.set_property("long_name", f"g{sk['id']}")
+            for c in f.auxiliary_coordinates(todict=True).values():
+                if "nodes" in sk["exvar"] and c.has_bounds():
+                    c.bounds.set_data(cfdm.Data(c.bounds.data.array + 1.0), inplace=True)
+                if "inst" in sk["exvar"] and c.has_data():
+                    # every instance-level coordinate differs, so that the variant needs an instance
+                    # dimension of its own
+                    if c.data.dtype.kind in "fi":
+                        c.set_data(cfdm.Data(c.data.array + 1), inplace=True)
+                    else:
+                        c.set_data(cfdm.Data(np.array([str(x) + "z" for x in c.data.array.ravel()]).reshape(
+                            c.data.shape)), inplace=True)
         return f
     f = cfdm.Field(properties={"long_name": f"f{sk['id']}", "units": "K", "fid": int(sk["id"])})
     if sk.get("gattr") is not None:
@@ -136,8 +179,13 @@ def build(sk):
         if dn is not None:
             da.nc_set_dimension(NCNAMES[dn % len(NCNAMES)])
         axes.append(f.set_construct(da))
-    f.set_data(cfdm.Data(sk["id"] * 1000.0 + np.arange(int(np.prod(sizes)), dtype=float).reshape(sizes)),
-               axes=axes)
+    if sk.get("cmp") is not None:
+        f.set_data(compressed_data(sk), axes=axes)
+        if sk["cmp"]["kind"] != "gath":
+            f.set_property("featureType", "timeSeries")
+    else:
+        f.set_data(cfdm.Data(sk["id"] * 1000.0 + np.arange(int(np.prod(sizes)), dtype=float).reshape(sizes)),
+                   axes=axes)
     dimkeys = {}
     for i, it in enumerate(sk["dim"]):
         if it is not None:
@@ -463,6 +511,73 @@ def raw_view(path, sks):
         nc.close()
 
 
+def raw_cview(path, sks):
+    """compressed fields: per field the compression variable its data variable uses, the dimensions that
+    variable refers to (compress / its own dimension / instance_dimension), and the dimensions the field's
+    own coordinate variables live on"""
+    nc = netCDF4.Dataset(path, "r")
+    try:
+        variables = nc.variables
+        atts = {n: {a: v.getncattr(a) for a in v.ncattrs()} for n, v in variables.items()}
+        dims = {n: list(v.dimensions) for n, v in variables.items()}
+
+        def ltok(n):
+            ln = atts[n].get("long_name")
+            if not isinstance(ln, str) or not ln.startswith("t"):
+                return None
+            base = int(ln[1:])
+            var = 0
+            if atts[n].get("comment") == "v2":
+                var = 2
+            elif atts[n].get("units") == "km":
+                var = 3
+            elif variables[n].size and float(np.ma.getdata(variables[n][...]).flat[-1]) % 1 == 0.5:
+                var = 1
+            return base * 4 + var
+        out = []
+        for sk in sks:
+            dvs = [n for n, a in atts.items() if "fid" in a and int(a["fid"]) == sk["id"]]
+            if len(dvs) != 1:
+                out.append({"err": f"{len(dvs)} data variables carry fid {sk['id']}"})
+                continue
+            dv = dvs[0]
+            c = sk["cmp"]
+            o = {"dv": dv, "ddims": dims[dv]}
+            if c["kind"] == "gath":
+                cv = [d for d in dims[dv] if d in variables and "compress" in atts[d]]
+                o["cvar"] = cv[0] if len(cv) == 1 else None
+                o["meaning"] = str(atts[cv[0]]["compress"]).split() if len(cv) == 1 else None
+                own = []
+                for a in range(c["p"], c["p"] + c["n"]):
+                    it = sk["dim"][a]
+                    cands = [n for n in variables if dims[n] == [n] and ltok(n) == it["t"]
+                             and variables[n].size == sk["sizes"][a]
+                             and (("bounds" in atts[n]) == (it.get("b") is not None))]
+                    own.append(cands[0] if len(cands) == 1 else None)
+                o["own"] = own
+            else:
+                key = "sample_dimension" if c["kind"] == "cont" else "instance_dimension"
+                if c["kind"] == "cont":
+                    cv = [n for n in variables if atts[n].get(key) == dims[dv][0]]
+                    o["meaning"] = dims[cv[0]] if len(cv) == 1 else None
+                else:
+                    cv = [n for n in variables if key in atts[n] and dims[n] == dims[dv]]
+                    o["meaning"] = [str(atts[cv[0]][key])] if len(cv) == 1 else None
+                o["cvar"] = cv[0] if len(cv) == 1 else None
+                coords = str(atts[dv].get("coordinates", "")).split()
+                own = None
+                for it in sk["aux"]:
+                    cands = [n for n in coords if n in variables and ltok(n) == it["t"] and len(dims[n]) == 1]
+                    if len(cands) == 1:
+                        own = dims[cands[0]][0]
+                        break
+                o["own"] = [own]
+            out.append(o)
+        return out
+    finally:
+        nc.close()
+
+
 def order_domain_dims(sk, ddims, dims, ltok):
     """axis order of a domain variable, recovered through its coordinate variables"""
     out = []
@@ -517,7 +632,7 @@ def run_case(case, scratch, ci):
             s["equal"] = [bool(h.equals(o)) and bool(o.equals(h)) for h in got]
             s["fps"] = [fingerprint(h) for h in got]
             s["faithful"] = (len(got) == 1 and s["equal"] == [True] and s["fps"][0] == s["fp_orig"])
-            if sk.get("ex") is None:
+            if sk.get("ex") is None and sk.get("cmp") is None:
                 _, _, s["nvars"] = raw_view(p, [sk])
             s["view"] = [token_view(h) for h in got][:1]
         except Exception as e:
@@ -540,7 +655,12 @@ def run_case(case, scratch, ci):
             r["write_exc"] = type(e).__name__ + ": " + str(e)[:300]
             row["orders"].append(r)
             continue
-        if all(sk.get("ex") is None for sk in sks):
+        if all(sk.get("cmp") is not None for sk in sks):
+            try:
+                r["cfile"] = raw_cview(p, [sks[k] for k in order])
+            except Exception as e:
+                r["raw_exc"] = type(e).__name__ + ": " + str(e)[:300] + traceback.format_exc()[-400:]
+        elif all(sk.get("ex") is None and sk.get("cmp") is None for sk in sks):
             try:
                 fview, refs, nvars = raw_view(p, [sks[k] for k in order])
                 r["file"] = fview
